@@ -18,7 +18,9 @@ CONSTANTS Limit,          \* the parser's nesting limit (its value is measured b
           B,              \* what "bounded" means here: live frames never exceed B, whatever the input length
           MaxN,           \* exploration bound on input size
           ChainsCounted
-Nested == {"paren", "array", "map", "subscript", "call_args", "not", "neg", "ternary", "pow", "if", "for", "filter_section", "set_block", "block", "component_body", "comprehension"}
+Nested == {"paren", "array", "map", "subscript", "call_args", "not", "neg", "ternary", "pow", "if", "for", "filter_section", "set_block", "block", "component_body", "comprehension",
+           \* expressions re-entered from component-call attributes, spreads, call arguments, slice bounds
+           "component_spread", "component_attr", "map_spread", "filter_arg", "test_arg", "slice_bound", "opt_subscript"}
 Chains == {"elif", "binop", "and_or", "filter", "attribute", "subscript_chain", "test", "concat"}
 VARIABLES depth, chain, status, shape
 vars == <<depth, chain, status, shape>>
